@@ -211,12 +211,12 @@ def make(flavour):
         target = TP + 'get_nodes_on_path_with_hops'
         extra_targets = HELPERS
         props = ('C06',)
-        bounded = gm.BOUND + '; hop lists of length 0..1'
+        bounded = gm.BOUND + '; hop lists of length 0..2 (the two hops may be equal, may be end nodes, in any order)'
         cost = 20
 
         def inputs(self, g):
             w = world(g, flavour)
-            hops = PList([g.atom('hop')] if g.choice(2, 'a hop?') == 0 else [])
+            hops = PList([g.atom(f'hop{i}') for i in range(g.pick([0, 1, 2], 'number of hops'))])
             return [handle(w, w.gA)], dict(node_a=g.atom('a'), node_z=g.atom('z'), hops=hops)
 
         def body(self, h, pg, **kw):
